@@ -15,12 +15,16 @@
 
    The service method is called once per declared error (returning it, possibly wrapped), then once more with
    an undeclared goa ServiceError with some flags, a plain Go error, or a request that does not even decode.
+   Every call negotiates the encoding of the response through its Accept header (none, JSON, XML, gob: what
+   goahttp.ResponseEncoder supports): the body - the generated body type of a declared error, goahttp's
+   ErrorResponse for everything else - carries the same name, message and flags in every encoding.
    The server writes exactly one response per call; the client maps it back. *)
 EXTENDS Integers, Sequences, FiniteSets, TLC
 
 CONSTANTS Deviations,
           Spaces,      \* which table spaces Init offers: "base", "place1", "pair", "pairq" (exhaustive), "triple" (grown by Declare: simulate)
-          Seed         \* rotates the members of "pairq"
+          Seed,        \* rotates the members of "pairq"
+          EncSpaces    \* the spaces whose calls range over every encoding (the others send no Accept header)
 ASSUME Seed \in 0..10000
 
 Names == <<"e1", "e2", "e3">>
@@ -31,6 +35,10 @@ Decoy == 422                                 \* status of a response shadowed by
 FlagRec == [t: BOOLEAN, tmp: BOOLEAN, f: BOOLEAN]
 NoFlags == [t |-> FALSE, tmp |-> FALSE, f |-> FALSE]
 DeclFlags == {NoFlags, [t |-> TRUE, tmp |-> TRUE, f |-> FALSE], [t |-> FALSE, tmp |-> FALSE, f |-> TRUE]}
+Encodings == {"none", "json", "xml", "gob"}  \* the Accept header of the request: absent, application/json, /xml, /gob
+Negotiated(a) == IF a = "none" THEN "json" ELSE a      \* the Content-Type of the response
+\* known departures of the generated client (known_findings.txt); the emitted cases carry what each of them predicts
+KnownClientDeviations == {"client.gob_zero_value_missing"}
 
 Innermost(S) == IF "method" \in S THEN "method" ELSE IF "service" \in S THEN "service" ELSE "api"
 
@@ -68,6 +76,11 @@ BaseTables ==
 Placed(n, ty, st, fl) == {Entry(n, p.decl, p.maps, ty, st, fl) : p \in {q \in Placements : ty = "custom" => q.decl # {"api"}}}
 PlacedPlain(n, st) == Placed(n, "result", st, NoFlags) \cup Placed(n, "custom", st, NoFlags)
 Place1Tables == {<<a>> : a \in PlacedPlain("e1", 404)}
+\* ---- "enc": a few tables for the encodings: one ErrorResult error per flag declaration (with a timeout flag that
+\* differs from the temporary flag), one user type error, both kinds on one status
+EncTables == {<<Decl("e1", "method", "result", 404, fl)>> : fl \in DeclFlags \cup {[t |-> TRUE, tmp |-> FALSE, f |-> FALSE]}}
+             \cup {<<Decl("e1", "method", "custom", 404, NoFlags)>>,
+                   <<Decl("e1", "method", "result", 409, [t |-> FALSE, tmp |-> TRUE, f |-> FALSE]), Decl("e2", "service", "custom", 409, NoFlags)>>}
 \* all ordered pairs, on one status or on two
 PairTables == {<<a, b>> : a \in PlacedPlain("e1", 404), b \in PlacedPlain("e2", 404) \cup PlacedPlain("e2", 409)}
 \* ---- "pairq": one pair per ordered pair of resolution paths, the members rotated by Seed (the quick tier's cut
@@ -110,15 +123,16 @@ UndeclaredFew ==
    [kind |-> "decode", name |-> "missing_body", flags |-> NoFlags]}
 \* only service errors are wrapped (fmt.Errorf("%w", MakeE1(...)))
 Returning(e) == {[kind |-> k, name |-> e.name, flags |-> NoFlags] : k \in IF e.type = "result" THEN {"declared", "wrapped"} ELSE {"declared"}}
-NoOutcome == [kind |-> "none", name |-> "-", flags |-> NoFlags]
+WithEnc(S, C) == {[kind |-> o.kind, name |-> o.name, flags |-> o.flags, enc |-> c] : o \in S, c \in C}
+NoOutcome == [kind |-> "none", name |-> "-", flags |-> NoFlags, enc |-> "none"]
 
 VARIABLES space,     \* the table space this behaviour explores
           table,     \* sequence of declared errors (distinct names) in declaration order
           callno,    \* calls made so far
           outcome, pc,
-          status, goaerr, bodyname, bodyflags, writes,      \* the response on the wire
+          status, goaerr, ctype, bodyname, bodyflags, writes,      \* the response on the wire (ctype: encoding of the body)
           cname, cflags, ckind                               \* what the client caller gets: error name, flags, "declared" | "generic"
-vars == <<space, table, callno, outcome, pc, status, goaerr, bodyname, bodyflags, writes, cname, cflags, ckind>>
+vars == <<space, table, callno, outcome, pc, status, goaerr, ctype, bodyname, bodyflags, writes, cname, cflags, ckind>>
 
 Find(n) == {i \in 1..Len(table) : table[i].name = n}
 Declared(n) == Find(n) # {}
@@ -157,31 +171,39 @@ Init ==
      \/ "place1" \in Spaces /\ space = "place1" /\ table \in Place1Tables
      \/ "pair" \in Spaces /\ space = "pair" /\ table \in PairTables
      \/ "pairq" \in Spaces /\ space = "pairq" /\ table \in PairQTables
+     \/ "enc" \in Spaces /\ space = "enc" /\ table \in EncTables
      \/ "triple" \in Spaces /\ space = "triple" /\ table = <<>>
   /\ callno = 0 /\ outcome = NoOutcome /\ pc = "design"
-  /\ status = 0 /\ goaerr = "none" /\ bodyname = "none" /\ bodyflags = NoFlags /\ writes = 0
+  /\ status = 0 /\ goaerr = "none" /\ ctype = "none" /\ bodyname = "none" /\ bodyflags = NoFlags /\ writes = 0
   /\ cname = "none" /\ cflags = NoFlags /\ ckind = "none"
 
 \* one more Error(...) (with its Response(...) lines) in the design
 Declare ==
   /\ pc = "design" /\ Grow /\ Len(table) < 3
   /\ \E e \in Grown(Names[Len(table) + 1]) : table' = Append(table, e)
-  /\ UNCHANGED <<space, callno, outcome, pc, status, goaerr, bodyname, bodyflags, writes, cname, cflags, ckind>>
+  /\ UNCHANGED <<space, callno, outcome, pc, status, goaerr, ctype, bodyname, bodyflags, writes, cname, cflags, ckind>>
 
 \* the next request: every declared error in turn, then one undeclared outcome
 Call ==
   /\ pc \in {"design", "done"} /\ Complete /\ callno <= Len(table)
   /\ callno' = callno + 1
-  /\ outcome' \in IF callno < Len(table) THEN Returning(table[callno + 1])
-                  ELSE IF space \in {"base", "triple"} THEN Undeclared ELSE UndeclaredFew
-  /\ pc' = "server" /\ status' = 0 /\ goaerr' = "none" /\ bodyname' = "none" /\ bodyflags' = NoFlags /\ writes' = 0
+  /\ outcome' \in WithEnc(IF callno < Len(table) THEN Returning(table[callno + 1])
+                          ELSE IF space \in {"base", "triple", "enc"} THEN Undeclared ELSE UndeclaredFew,
+                          IF space \in EncSpaces THEN Encodings ELSE {"none"})
+  /\ pc' = "server" /\ status' = 0 /\ goaerr' = "none" /\ ctype' = "none" /\ bodyname' = "none" /\ bodyflags' = NoFlags /\ writes' = 0
   /\ cname' = "none" /\ cflags' = NoFlags /\ ckind' = "none"
   /\ UNCHANGED <<space, table>>
 
-\* server side: the generated error encoder, else the default encoder
+\* hypothetical (vacuity guard): the XML form of goahttp's ErrorResponse takes its timeout flag from the temporary flag
+ErrorResponseFlags(fl, ct) == IF "encode.xml_timeout_is_temporary" \in Deviations /\ ct = "xml" THEN [fl EXCEPT !.t = fl.tmp] ELSE fl
+FaultFlags == [t |-> FALSE, tmp |-> FALSE, f |-> TRUE]
+
+\* server side: the generated error encoder, else the default encoder (goahttp.ErrorEncoder: an ErrorResponse body);
+\* both write through goahttp.ResponseEncoder, which picks the encoding the request asked for
 ServerEncode ==
   /\ pc = "server"
   /\ writes' = writes + 1
+  /\ ctype' = Negotiated(outcome.enc)
   /\ CASE outcome.kind \in {"declared", "wrapped"} /\ Resolved(Idx(outcome.name)) ->
             LET e == Entry_(outcome.name) IN
             /\ status' = WireStatus(Idx(outcome.name))
@@ -190,16 +212,16 @@ ServerEncode ==
        [] outcome.kind \in {"declared", "wrapped"} /\ ~Resolved(Idx(outcome.name)) ->      \* only under a deviation: nothing knows the error
             LET e == Entry_(outcome.name) IN
             IF e.type = "result"
-            THEN /\ status' = DefaultStatus(e.name, e.flags) /\ goaerr' = "none" /\ bodyname' = e.name /\ bodyflags' = e.flags
-            ELSE /\ status' = 500 /\ goaerr' = "none" /\ bodyname' = "fault" /\ bodyflags' = [t |-> FALSE, tmp |-> FALSE, f |-> TRUE]
+            THEN /\ status' = DefaultStatus(e.name, e.flags) /\ goaerr' = "none" /\ bodyname' = e.name /\ bodyflags' = ErrorResponseFlags(e.flags, ctype')
+            ELSE /\ status' = 500 /\ goaerr' = "none" /\ bodyname' = "fault" /\ bodyflags' = FaultFlags
        [] outcome.kind \in {"service", "joined"} ->
             /\ status' = DefaultStatus(outcome.name, outcome.flags) /\ goaerr' = "none"
-            /\ bodyname' = outcome.name /\ bodyflags' = outcome.flags
+            /\ bodyname' = outcome.name /\ bodyflags' = ErrorResponseFlags(outcome.flags, ctype')
        [] outcome.kind = "plain" ->
-            /\ status' = 500 /\ goaerr' = "none" /\ bodyname' = "fault" /\ bodyflags' = [t |-> FALSE, tmp |-> FALSE, f |-> TRUE]
+            /\ status' = 500 /\ goaerr' = "none" /\ bodyname' = "fault" /\ bodyflags' = ErrorResponseFlags(FaultFlags, ctype')
        [] outcome.kind = "decode" ->
             /\ status' = IF outcome.name = "bad_media_type" THEN 415 ELSE 400
-            /\ goaerr' = "none" /\ bodyflags' = NoFlags
+            /\ goaerr' = "none" /\ bodyflags' = ErrorResponseFlags(NoFlags, ctype')
             /\ bodyname' = CASE outcome.name = "missing_body" -> "missing_payload"
                              [] outcome.name = "malformed_body" -> "decode_payload"
                              [] outcome.name = "bad_param" -> "invalid_field_type"
@@ -207,18 +229,24 @@ ServerEncode ==
   /\ pc' = "client"
   /\ UNCHANGED <<space, table, callno, outcome, cname, cflags, ckind>>
 
-\* client side: switch on the status, then on the goa-error header when several errors share the status
+\* client side: switch on the status, then on the goa-error header when several errors share the status, then the
+\* body is decoded (goahttp.ResponseDecoder reads JSON, XML and gob) and validated.  What the caller gets under `devs`:
+ClientView(devs) ==
+  LET cands == {i \in 1..Len(table) : Resolved(i) /\ WireStatus(i) = status}
+      generic == [cname |-> "generic", cflags |-> NoFlags, ckind |-> "generic"]
+      as(e) == \* known: gob leaves zero values out, the client's validation of an ErrorResult body then misses the false flags
+               IF "client.gob_zero_value_missing" \in devs /\ ctype = "gob" /\ e.type = "result" /\ ~(bodyflags.t /\ bodyflags.tmp /\ bodyflags.f)
+               THEN generic ELSE [cname |-> e.name, cflags |-> bodyflags, ckind |-> "declared"]
+  IN IF cands = {} \/ (goaerr = "none") \/ ~(\E i \in cands : table[i].name = goaerr)
+     THEN IF cands # {} /\ Cardinality(cands) = 1 /\ goaerr = "none" /\ "client.single_error_ignores_header" \in devs
+          THEN as(table[CHOOSE i \in cands : TRUE])
+          ELSE generic
+     ELSE as(table[CHOOSE i \in cands : table[i].name = goaerr])
 ClientDecode ==
   /\ pc = "client"
-  /\ LET cands == {i \in 1..Len(table) : Resolved(i) /\ WireStatus(i) = status} IN
-     IF cands = {} \/ (goaerr = "none") \/ ~(\E i \in cands : table[i].name = goaerr)
-     THEN IF cands # {} /\ Cardinality(cands) = 1 /\ goaerr = "none" /\ "client.single_error_ignores_header" \in Deviations
-          THEN LET e == table[CHOOSE i \in cands : TRUE] IN cname' = e.name /\ cflags' = bodyflags /\ ckind' = "declared"
-          ELSE cname' = "generic" /\ cflags' = NoFlags /\ ckind' = "generic"
-     ELSE LET e == table[CHOOSE i \in cands : table[i].name = goaerr] IN
-          cname' = e.name /\ cflags' = bodyflags /\ ckind' = "declared"
+  /\ LET v == ClientView(Deviations) IN cname' = v.cname /\ cflags' = v.cflags /\ ckind' = v.ckind
   /\ pc' = "done"
-  /\ UNCHANGED <<space, table, callno, outcome, status, goaerr, bodyname, bodyflags, writes>>
+  /\ UNCHANGED <<space, table, callno, outcome, status, goaerr, ctype, bodyname, bodyflags, writes>>
 Next == Declare \/ Call \/ ServerEncode \/ ClientDecode
 Spec == Init /\ [][Next]_vars
 
@@ -240,6 +268,8 @@ DefaultMapping == pc = "done" =>
    /\ (outcome.kind \in {"service", "joined"} => status = DefaultStatus(outcome.name, outcome.flags) /\ bodyname = outcome.name /\ bodyflags = outcome.flags)
    /\ (outcome.kind = "decode" => status \in {400, 415} /\ bodyname \in {"missing_payload", "decode_payload", "invalid_field_type", "unsupported_media_type"})
 ExactlyOneResponse == pc \in {"client", "done"} => writes = 1
+\* the body is written in the encoding the request asked for (JSON when it did not ask)
+ContentNegotiated == pc \in {"client", "done"} => ctype = Negotiated(outcome.enc)
 \* every declared error of the table is returned by the service (and so observed at the client) before the undeclared call
 EveryDeclaredReturned == pc = "done" /\ callno = Len(table) + 1 => outcome.kind \notin {"declared", "wrapped"}
 CallsInOrder == pc \in {"server", "client", "done"} /\ callno <= Len(table) => outcome.name = table[callno].name
